@@ -30,6 +30,7 @@ inductive Atom where
   | traitsCache   -- the constant `TraitsCache` = `'_traits_cache_'`
   | propName      -- the property's name
   | getPrefix     -- `'_get_'` (5 characters)
+  | oldSuffix     -- `':old'`
   deriving DecidableEq, Repr
 
 def Atom.len : Atom → Option Nat
@@ -42,6 +43,11 @@ inductive SExpr where
   | propName
   /-- `function.__name__` -/
   | funcName
+  /-- the `cached` parameter of the legacy listener: `TraitsCache + name` (has_traits.py
+  `update_traits_class_dict`: `if cached is True: cached = TraitsCache + name`) -/
+  | cachedParam
+  /-- the literal `':old'` -/
+  | oldSuffix
   | var (x : Nat)
   | cat (a b : SExpr)
   /-- `e[n:]` -/
@@ -77,6 +83,8 @@ inductive Stmt where
   | assign (x : Nat) (e : VExpr)
   /-- `<obj>.__dict__[k] = x = e` (targets left to right after `e` is evaluated) -/
   | dictSetAssign (k : SExpr) (x : Nat) (e : VExpr)
+  /-- `<obj>.__dict__[k] = e` -/
+  | dictSet (k : SExpr) (e : VExpr)
   | ite (c : Cond) (t e : Stmt)
   /-- `instance.trait_property_changed(name, old)` -/
   | propertyChanged (name : SExpr) (old : VExpr)
@@ -106,6 +114,8 @@ def evalS (sv : List (Nat × List Atom)) : SExpr → List Atom
   | .traitsCache => [.traitsCache]
   | .propName => [.propName]
   | .funcName => [.getPrefix, .propName]
+  | .cachedParam => [.traitsCache, .propName]
+  | .oldSuffix => [.oldSuffix]
   | .var x => lookupS sv x
   | .cat a b => evalS sv a ++ evalS sv b
   | .dropLeft n e =>
@@ -175,6 +185,10 @@ def exec (P : Env Val) (tpcI : St Val → Old Val → St Val) : Stmt → Ctx Val
     match evalV P c e with
     | (.ok v, s') => { c with st := dictSet (evalS c.svars k) v s', vars := (x, v) :: c.vars }
     | (.error e, s') => { c with st := s', exc := some e }
+  | .dictSet k e, c =>
+    match evalV P c e with
+    | (.ok v, s') => { c with st := dictSet (evalS c.svars k) v s' }
+    | (.error e, s') => { c with st := s', exc := some e }
   | .ite cnd t e, c => if evalC P c cnd then exec P tpcI t c else exec P tpcI e c
   | .propertyChanged _ old, c =>
     match evalV P c old with
@@ -194,6 +208,76 @@ with the object; the getter is the `cached_property` wrapper (`decorator`) when
 the user's function is wrapped, the user's function itself otherwise. -/
 def readSrc (decorator : Stmt) (P : Env Val) (s : St Val) : Except Exc Val × St Val :=
   if P.cached then outcome (exec P (fun s _ => s) decorator { st := s }) else callG P s
+
+/-! ## The legacy `depends_on` listener (`_init_trait_property_listener`)
+
+Its two handlers keep the dropped entry in a second dictionary slot,
+`cached + ':old'`, between the priority handler `pre_notify` and `notify`.
+The model has no such slot (`dispatchFire` threads the dropped entry as a
+value); the interpreter here carries it explicitly. -/
+
+def oldKey : List Atom := [.traitsCache, .propName, .oldSuffix]
+
+structure LCtx (Val : Type) where
+  st : St Val
+  /-- `obj.__dict__[cached + ':old']` -/
+  oldSlot : Option (Old Val) := none
+  svars : List (Nat × List Atom) := []
+  vars : List (Nat × Old Val) := []
+
+def evalVL (c : LCtx Val) : VExpr → Old Val × LCtx Val
+  | .undefined => (.undefined, c)
+  | .none => (.none, c)
+  | .var x => (lookupV c.vars x, c)
+  | .dictPop k d =>
+    if evalS c.svars k = cacheKey then
+      match c.st.cache with
+      | some v => (.val v, { c with st := { c.st with cache := none } })
+      | none => evalVL c d
+    else if evalS c.svars k = oldKey then
+      match c.oldSlot with
+      | some o => (o, { c with oldSlot := none })
+      | none => evalVL c d
+    else evalVL c d
+  | .dictGet k d =>
+    if evalS c.svars k = cacheKey then
+      match c.st.cache with
+      | some v => (.val v, c)
+      | none => evalVL c d
+    else if evalS c.svars k = oldKey then
+      match c.oldSlot with
+      | some o => (o, c)
+      | none => evalVL c d
+    else evalVL c d
+  | .callFunction => (.undefined, c)
+
+def condL (P : Env Val) (c : LCtx Val) : Cond → Bool
+  | .cachedFlag => P.cached
+  | .isUndefined x => isUndef P (lookupV c.vars x)
+  | .isNotUndefined x => !isUndef P (lookupV c.vars x)
+
+/-- Execute a statement of the legacy fragment (no getter call, no `return`). -/
+def execL (P : Env Val) (tpcI : St Val → Old Val → St Val) : Stmt → LCtx Val → LCtx Val
+  | .skip, c => c
+  | .seq a b, c => execL P tpcI b (execL P tpcI a c)
+  | .assignS x e, c => { c with svars := (x, evalS c.svars e) :: c.svars }
+  | .assign x e, c =>
+    let r := evalVL c e
+    { r.2 with vars := (x, r.1) :: r.2.vars }
+  | .dictSet k e, c =>
+    let r := evalVL c e
+    if evalS c.svars k = oldKey then { r.2 with oldSlot := some r.1 }
+    else if evalS c.svars k = cacheKey then
+      match r.1 with
+      | .val w => { r.2 with st := { r.2.st with cache := some w } }
+      | _ => r.2
+    else r.2
+  | .dictSetAssign _ _ _, c => c
+  | .ite cnd t e, c => if condL P c cnd then execL P tpcI t c else execL P tpcI e c
+  | .propertyChanged _ old, c =>
+    let r := evalVL c old
+    { r.2 with st := tpcI r.2.st r.1 }
+  | .ret _, c => c
 
 /-! ## C fragment -/
 
